@@ -425,3 +425,23 @@ func vH_C01_stream_read_len() {
 		vAssert(conn.pos == want, "a parsed segment consumed exactly metadata + prefix + payload(+tag) + suffix (the stream stays aligned)")
 	}
 }
+
+// ---- H16.5: TCP fragmentation writes the same bytes, in order, in pieces ----
+func vH_C16_tcp_fragment() {
+	enable := true
+	sleep := vNondetI32("maxSleepMs")
+	vAssume(sleep >= 0 && sleep <= 100)
+	tp := &appctlpb.TrafficPattern{TcpFragment: &appctlpb.TCPFragment{Enable: &enable, MaxSleepMs: &sleep}}
+	for _, n := range [...]int{1, 2, 10, 40} {
+		conn := &vFakeConn{}
+		u := &StreamUnderlay{baseUnderlay: *newBaseUnderlay(true, 1400, tp), conn: conn}
+		data := vNondetBytes("data", n)
+		err := u.writeWithPossibleFragment(data)
+		vAssert(err == nil, "fragmented write succeeds")
+		vAssert(len(conn.out) == n, "the pieces add up to the buffer")
+		for i := 0; i < n; i++ {
+			vAssert(conn.out[i] == data[i], "the pieces carry the buffer's bytes in order")
+		}
+		vAssert(conn.writes >= 1 && conn.writes <= n, "at least one piece, no empty pieces")
+	}
+}
